@@ -8,6 +8,7 @@ package collector
 import (
 	"encoding/json"
 	"fmt"
+	"math"
 	"strconv"
 	"time"
 
@@ -77,6 +78,11 @@ type EventHarvestConfig struct {
 type SpanEventHarvestConfig struct {
 	SpanEventConfig Event
 }
+
+// maxReportPeriodMS is the longest report period, in milliseconds, that a
+// time.Duration can hold. A longer period would wrap around to a negative
+// duration, which time.NewTicker refuses with a panic.
+const maxReportPeriodMS = uint64(math.MaxInt64 / int64(time.Millisecond))
 
 // durationToMilliseconds converts a report period duration to a raw number of
 // milliseconds. As report period durations can never be negative,
@@ -163,7 +169,7 @@ func (daemonConfig *SpanEventHarvestConfig) UnmarshalJSON(b []byte) error {
 
 	// Validate the reporting period, since it cannot be zero, then copy it in as
 	// a time.Duration.
-	if rawConfig.ReportPeriodMS == 0 {
+	if rawConfig.ReportPeriodMS == 0 || rawConfig.ReportPeriodMS > maxReportPeriodMS {
 		log.Warnf("Unexpected report period of %d ms received; ignoring and using the default %v instead", rawConfig.ReportPeriodMS, limits.DefaultReportPeriod)
 		daemonConfig.SpanEventConfig.ReportPeriod = limits.DefaultReportPeriod
 	} else {
@@ -214,7 +220,7 @@ func (daemonConfig *EventHarvestConfig) UnmarshalJSON(b []byte) error {
 
 	// Validate the reporting period, since it cannot be zero, then copy it in as
 	// a time.Duration.
-	if rawConfig.ReportPeriodMS == 0 {
+	if rawConfig.ReportPeriodMS == 0 || rawConfig.ReportPeriodMS > maxReportPeriodMS {
 		log.Warnf("Unexpected report period of %d ms received; ignoring and using the default %v instead", rawConfig.ReportPeriodMS, limits.DefaultReportPeriod)
 		daemonConfig.ReportPeriod = limits.DefaultReportPeriod
 	} else {
